@@ -139,6 +139,7 @@ def run_all(ctx, cases, want):
         crs = cr.split(" ") if cr else None
         prev = ("2,0,1", "cbf29ce484222325")
         reported = False
+        use_ref = True
         for k, tok in enumerate(toks):
             ctx.evaluations += 1
             nsteps += 1
@@ -179,8 +180,15 @@ def run_all(ctx, cases, want):
                     ctx.violation("failed operation changed the allocator at step %d (%s)" % (k, tok), rep)
                     break
             prev = (cnt, dg)
+            if not use_ref:
+                continue
             if e is None or e == "P":
                 break
+            if want == "caps" and in_f2:
+                # from here on the heap holds bytes the reference does not count (F2): the exact
+                # cap predictions of the reference no longer apply; the monitors above keep running
+                use_ref = False
+                continue
             eres, ecnt, edg = e.rsplit("/", 2)
             capdiff = (res in CAP_ERRS or eres in CAP_ERRS) and res != eres
             if want == "counts" and cnt != ecnt and not capdiff and not reported:
@@ -191,7 +199,10 @@ def run_all(ctx, cases, want):
             if want == "contents" and not capdiff and (res != eres or dg != edg):
                 ctx.violation("step %d (%s): implementation %s [%s], node contents by the reference %s [%s]" % (k, tok, res, dg, eres, edg), rep)
             if res != eres or dg != edg:
-                break    # later steps are no longer aligned with the reference
+                if want == "caps":
+                    use_ref = False      # no longer aligned with the reference; monitors continue
+                else:
+                    break
     ctx.extra_cov["steps"] = nsteps
     return impl
 
